@@ -551,7 +551,7 @@ void prop_bicgstab(Tape &t, Ctx &ctx) {
     cnt.finish(ctx, moved);
 }
 
-// ================================================================= GMRES(M) both sides, FGMRES(M), LGMRES(M,K) first cycle
+// ================================================================= GMRES(M) both sides, FGMRES(M), LGMRES(M,K) (three cycles)
 template <class V>
 void prop_gmres(Tape &t, Ctx &ctx) {
     typedef typename VT<V>::S S; typedef typename VT<V>::D D;
@@ -568,7 +568,7 @@ void prop_gmres(Tape &t, Ctx &ctx) {
     bool lg = variant >= 3;
     int cycle = lg ? M + Kaug : M;             // length of the first cycle
     int K = std::min(c.n, static_cast<int>(t.u(0, 2)) == 0 ? 6 : 40);
-    if (lg) K = std::min(K, cycle);            // the property speaks about LGMRES in its first cycle only
+    if (lg) K = std::min(c.n, 3 * cycle + 1);  // LGMRES: three complete cycles and the first step of the fourth (augmentation vectors in use from cycle 2 on)
     const char *vn[] = {"gmres-right", "gmres-left", "fgmres", "lgmres-right", "lgmres-left"};
     std::string what = vn[variant];
     ctx.desc << what << " M=" << M << (lg ? " K=" + std::to_string(Kaug) : std::string()) << " " << describe_case(c) << " kmax=" << K;
@@ -578,15 +578,19 @@ void prop_gmres(Tape &t, Ctx &ctx) {
     ref::Sys<S> s; s.A = &c.Ad; s.M = c.Mp(); s.b = c.bd; s.left = left;
     Twin<V> w(c);
     ref::Sys<D> sw; sw.A = &w.A; sw.M = w.Mp(); sw.b = w.b; sw.left = left;
-    ref::Trace<S> tr = ref::gmres<S>(s, c.x0d, cycle, K, variant == 2);
-    ref::Trace<D> tw = ref::gmres<D>(sw, w.x0, cycle, K, variant == 2);
+    ref::Trace<S> tr = lg ? ref::lgmres<S>(s, c.x0d, M, Kaug, K) : ref::gmres<S>(s, c.x0d, cycle, K, variant == 2);
+    ref::Trace<D> tw = lg ? ref::lgmres<D>(sw, w.x0, M, Kaug, K) : ref::gmres<D>(sw, w.x0, cycle, K, variant == 2);
+    // LGMRES: the order in which the stored corrections are appended (oldest first, as the code does) only matters for k inside
+    // the augmented tail of a cycle with >= 2 stored corrections; such cases are labelled (reference run with the other order)
+    ref::Trace<S> tr_alt; if (lg && Kaug >= 2) tr_alt = ref::lgmres<S>(s, c.x0d, M, Kaug, K, true);
     long double nb = ref::nrm2(c.bd);
     // scale of the rounding error of a computed (preconditioned) residual
     long double an = 0, mn = 0;
     for (int i = 0; i < c.n; ++i) { long double r1 = 0, r2 = 0; for (int j = 0; j < c.n; ++j) { r1 += std::abs(c.Ad(i, j)); if (c.pkind) r2 += std::abs(c.Md(i, j)); } an = std::max(an, r1); mn = std::max(mn, r2); }
     if (!c.pkind || !left) mn = 1;
     bool moved = false; Count cnt; bool restarted = false;
-    double prev = -1;
+    double prev = -1, prev_cycle = -1;
+    bool lg_aug = false, lg_order = false, lg_cyc = false;
     for (int k = 1; k <= K; ++k) {
         if (!iterate_exists(k, tr, tw, ctx)) break;
         Out<V> o;
@@ -613,9 +617,22 @@ void prop_gmres(Tape &t, Ctx &ctx) {
         if (prev >= 0) VF_REQUIRE(static_cast<long double>(o.resid) * nb <= static_cast<long double>(prev) * nb * (1 + 1e-12L) + rscale,
                                   what << ": returned residual increased from " << prev << " (k=" << k - 1 << ") to " << o.resid << " (k=" << k << ")");
         prev = o.resid;
+        if (lg) {
+            if (k >= 2 * cycle && Kaug > 0) lg_aug = true;
+            if (k < static_cast<int>(tr_alt.x.size()) && dist2(tr.x[k], tr_alt.x[k]) > 1e-9L * xmax) lg_order = true;
+            if (k % cycle == 0) { // end of a complete cycle: the residual must not increase from cycle to cycle
+                if (prev_cycle >= 0) VF_REQUIRE(static_cast<long double>(o.resid) * nb <= static_cast<long double>(prev_cycle) * nb * (1 + 1e-12L) + rscale,
+                                                what << ": residual at the end of cycle " << k / cycle << " (" << o.resid << ") exceeds the one at the end of cycle " << k / cycle - 1 << " (" << prev_cycle << ")");
+                prev_cycle = o.resid;
+                if (k / cycle >= 2) lg_cyc = true;
+            }
+        }
     }
     cnt.finish(ctx, moved);
     if (restarted) ctx.label("restarted");
+    if (lg_aug) ctx.label("lgmres:augmentation-vector-used");
+    if (lg_cyc) ctx.label("lgmres:cycles>=2");
+    if (lg_order) ctx.label("lgmres:some-k-depends-on-order-of-stored-corrections");
 }
 
 // ================================================================= Richardson
